@@ -314,14 +314,21 @@ func checkC16(r *Result) {
 		sized := 0
 		for _, c := range P.CallSitesIn(sp) {
 			if c.Callee == "x/bridge/types.NewBridgeValsetSignatures" {
-				a := tm.Of(c.Instr.Common().Args[0])
-				if a.Op == "call:builtin:len" {
-					if a.Contains("BridgeValsetByTimestampMap") && a.Contains("ValidatorCheckpointIdxMap") && !a.Contains("param:2:") && a.Find(func(t *Term) bool {
-						return t.Op == "-" && len(t.Args) == 2 && t.Args[1].Op == "const:1"
-					}) != nil {
-						sized++
-					} else if a.Contains("param:2:") {
-						sized += 10 // first checkpoint: sized by the set itself
+				a0 := tm.Of(c.Instr.Common().Args[0])
+				// one call per case, or one call with the size chosen before it (a default overridden for a later checkpoint)
+				alts := []*Term{a0}
+				if a0.Op == "phi" {
+					alts = a0.Args
+				}
+				for _, a := range alts {
+					if a.Op == "call:builtin:len" {
+						if a.Contains("BridgeValsetByTimestampMap") && a.Contains("ValidatorCheckpointIdxMap") && !a.Contains("param:2:") && a.Find(func(t *Term) bool {
+							return t.Op == "-" && len(t.Args) == 2 && t.Args[1].Op == "const:1"
+						}) != nil {
+							sized++
+						} else if a.Contains("param:2:") {
+							sized += 10 // first checkpoint: sized by the set itself
+						}
 					}
 				}
 			}
